@@ -9,7 +9,7 @@ git -C /repo apply "$PATCH" || { echo "patch does not apply"; exit 3; }
 trap 'git -C /repo checkout -- . ; rm -f "$HERE"/replays/*/fail-*.json' EXIT
 for P in "$@"; do
   OUT=$(mktemp)
-  "$HERE/run" "$P" "$TIER" > "$OUT" 2>&1
+  VERIF_EVIDENCE_DIR="$(mktemp -d)" "$HERE/run" "$P" "$TIER" > "$OUT" 2>&1
   echo "$P exit=$? : $(grep -c '^VIOLATION' "$OUT") VIOLATION line(s); $(grep -m1 -B1 '^VIOLATION' "$OUT" | head -1 | cut -c1-260)"
   grep -h HARNESS-ERROR "$OUT" | head -2
   rm -f "$OUT"
